@@ -26,6 +26,10 @@ pub enum Case {
     Constant { tokens: Vec<String>, description: String, numer: String, denom: String, entries: Vec<(String, i32, i32)>, source: Option<u64> },
     /// Shipped constant #i.
     Shipped { index: usize },
+    /// A vocabulary word ([prefix]name) the tool accepts: parse -> CBOR -> back.
+    Word { word: String },
+    /// The entries of a compound written to CBOR by hand in the given key order (not the encoder's own).
+    KeyOrder { entries: Vec<(String, i32, i32)>, rotate: usize, reverse: bool },
     /// The identifier a derived unit had when /verif was pinned (harness/data/ids_pinned.json).
     Pinned { variant: String, id: u32, singular: String, plural: String },
 }
@@ -190,6 +194,56 @@ fn check(c: &Case) -> CaseReport {
                 roundtrip_constant(&c)?;
                 Ok((true, vec!["random-constant"]))
             }
+            Case::Word { word } => {
+                let parsed: Compound = match word.parse() {
+                    Ok(c) => c,
+                    Err(_) => return Ok((false, vec!["word-rejected"])),
+                };
+                roundtrip_compound(&parsed)?;
+                let v = serde_cbor::value::to_value(&parsed).map_err(|e| ("compound-does-not-encode".to_string(), e.to_string()))?;
+                let back: Compound = serde_cbor::value::from_value(v).map_err(|e| ("compound-does-not-decode".to_string(), format!("{}: {}", word, e)))?;
+                if back != parsed {
+                    return Err(("compound-roundtrip-differs".into(), format!("{} vs {}", back, parsed)));
+                }
+                Ok((true, vec!["vocabulary-word"]))
+            }
+            Case::KeyOrder { entries, rotate, reverse } => {
+                // canonical: what the library itself writes for this compound
+                let (cb, mir) = compound_cbor(entries).ok_or(("unknown-variant".to_string(), format!("{:?}", entries)))?;
+                let canonical: Compound = serde_cbor::value::from_value(cb).map_err(|e| ("compound-does-not-decode".to_string(), e.to_string()))?;
+                let canonical_bytes = serde_cbor::to_vec(&canonical).map_err(|e| ("compound-does-not-encode".to_string(), e.to_string()))?;
+                // by hand: {"names": {k1: s1, k2: s2, ...}} with the entries in another order
+                let mut order: Vec<&(String, i32, i32)> = entries.iter().collect();
+                if *reverse {
+                    order.reverse();
+                }
+                let n = order.len();
+                order.rotate_left(rotate % n.max(1));
+                let mut bytes = vec![0xa1u8, 0x65, b'n', b'a', b'm', b'e', b's'];
+                if n >= 24 {
+                    return Ok((false, vec!["too-many-entries"]));
+                }
+                bytes.push(0xa0 + n as u8);
+                for (variant, power, prefix) in order {
+                    let (k, _) = unit_key_cbor(variant).ok_or(("unknown-variant".to_string(), variant.clone()))?;
+                    bytes.extend(serde_cbor::to_vec(&k).unwrap());
+                    let mut st = BTreeMap::new();
+                    st.insert(Cbor::Text("power".into()), Cbor::Integer(*power as i128));
+                    st.insert(Cbor::Text("prefix".into()), Cbor::Integer(*prefix as i128));
+                    bytes.extend(serde_cbor::to_vec(&Cbor::Map(st)).unwrap());
+                }
+                let decoded: Compound = serde_cbor::from_slice(&bytes).map_err(|e| ("compound-in-another-key-order-does-not-decode".to_string(), e.to_string()))?;
+                if decoded != canonical || mirror(&decoded) != mir {
+                    return Err(("compound-depends-on-key-order".into(), format!("`{}` vs `{}` (equal: {})", decoded, canonical, decoded == canonical)));
+                }
+                if decoded.to_string() != canonical.to_string() || decoded.display(true).to_string() != canonical.display(true).to_string() {
+                    return Err(("compound-depends-on-key-order".into(), format!("displays `{}` vs `{}`", decoded, canonical)));
+                }
+                if serde_cbor::to_vec(&decoded).ok().as_ref() != Some(&canonical_bytes) {
+                    return Err(("compound-depends-on-key-order".into(), "re-encoding differs from the canonical encoding".into()));
+                }
+                Ok((entries.len() >= 2, vec!["foreign-key-order"]))
+            }
             Case::Pinned { variant, id, singular, plural } => {
                 // the identifier this unit had when /verif was pinned (data written by an earlier
                 // build carries it) must still decode, and to the unit its documented name denotes
@@ -250,12 +304,16 @@ fn check(c: &Case) -> CaseReport {
 }
 
 fn entries() -> impl Strategy<Value = Vec<(String, i32, i32)>> {
-    prop::collection::vec((any::<u16>(), (-9i32..=9).prop_filter("nonzero", |p| *p != 0), -24i32..=24), 1..=6).prop_map(|v| {
+    // stored prefix = an SI prefix exponent plus the unit's bias (the gram is stored relative to the
+    // kilogram, so `yg` is -27): exactly the prefixes a unit expression of the query language can carry
+    const SI: [i32; 21] = [-24, -21, -18, -15, -12, -9, -6, -3, -2, -1, 0, 1, 2, 3, 6, 9, 12, 15, 18, 21, 24];
+    prop::collection::vec((any::<u16>(), (-9i32..=9).prop_filter("nonzero", |p| *p != 0), 0usize..21, any::<bool>()), 1..=6).prop_map(|v| {
         let voc = vocab();
         let mut seen = std::collections::BTreeSet::new();
         v.into_iter()
-            .filter_map(|(u, p, pre)| {
+            .filter_map(|(u, p, pre, biased)| {
                 let ud = &voc.units[pick_idx(u, voc.units.len())];
+                let pre = SI[pre] + if biased { ud.bias } else { 0 };
                 // gram and kilogram share one key
                 if seen.insert(ud.key()) {
                     Some((ud.variant.clone(), p, pre))
@@ -300,7 +358,7 @@ fn rational_case() -> impl Strategy<Value = Case> {
 }
 
 pub fn run_check(ctx: &Ctx) {
-    ctx.set_rule("exhaustive: all 86 registry units (name -> Compound -> CBOR -> back; the id written by the code equals the id documented in tools/gen/data.toml; a CBOR value hand-built from the documented id decodes to the same unit; ids pairwise distinct; every identifier pinned in harness/data/ids_pinned.json — what data written by the pinned build contains — still decodes, to a unit with the same singular/plural name, equal to the unit its documented name parses to) and every shipped constant (decode, re-encode, decode, equal, byte-identical, unit ids inside the registry); generated: compounds of 1-6 units with prefixes -24..24 and powers -9..9 built from documented ids, rationals up to 2000 bits through CBOR and JSON, constants; non-trivial = derived unit / compound with >=2 units incl. a derived one / rational with >64-bit numerator / constant; distinct by case");
+    ctx.set_rule("exhaustive: all 86 registry units (name -> Compound -> CBOR -> back; the id written by the code equals the id documented in tools/gen/data.toml; a CBOR value hand-built from the documented id decodes to the same unit; ids pairwise distinct; every identifier pinned in harness/data/ids_pinned.json — what data written by the pinned build contains — still decodes, to a unit with the same singular/plural name, equal to the unit its documented name parses to) and every shipped constant (decode, re-encode, decode, equal, byte-identical, unit ids inside the registry); every accepted vocabulary word (parse -> CBOR -> back); generated: compounds of 1-6 units with every SI prefix (plus the gram's bias) and powers -9..9 built from documented ids, the same compounds written by hand in another map-key order (must decode to an equal compound with identical display and canonical re-encoding), rationals up to 2000 bits through CBOR and JSON, constants; non-trivial = derived unit / compound with >=2 units incl. a derived one / rational with >64-bit numerator / constant; distinct by case");
     if std::env::var("VERIF_EMIT_PINS").is_ok() {
         emit_pins();
         std::process::exit(0);
@@ -328,7 +386,10 @@ pub fn run_check(ctx: &Ctx) {
     ctx.exhaustive.store(true, std::sync::atomic::Ordering::Relaxed);
     ctx.put("exhaustive_scope", json!("all registry units and all shipped constants"));
     let n = ctx.tier.pick(60_000u64, 2_000_000);
+    let w = crate::gen::words();
+    ctx.run_enum("vocabulary-words", w.all.len() as u64, |i| Some(Case::Word { word: w.all[i as usize].word.text.clone() }), check, |c| to_json(c));
     ctx.run_gen("random-compounds", || entries().prop_map(|entries| Case::Compound { entries }), n, check, |c| to_json(c));
+    ctx.run_gen("foreign-key-order", || (entries(), 0usize..6, any::<bool>()).prop_map(|(entries, rotate, reverse)| Case::KeyOrder { entries, rotate, reverse }), n / 2, check, |c| to_json(c));
     ctx.run_gen("random-rationals", rational_case, n / 2, check, |c| to_json(c));
     ctx.run_gen(
         "random-constants",
